@@ -19,6 +19,7 @@ import (
 	"strings"
 
 	"verifharness/lib"
+	"verifharness/svclib"
 )
 
 type setting struct {
@@ -47,31 +48,24 @@ func serviceBinary() string {
 		return svcBin
 	}
 	svcBinTried = true
-	repo := repoDir()
-	if _, err := os.Stat(filepath.Join(repo, "timeservice_verif.go")); err != nil {
+	repo := svclib.RepoDir()
+	if !svclib.HasHook(repo, "timeservice_verif.go") {
 		fmt.Fprintf(os.Stderr, "c01: %s/timeservice_verif.go not present: configuration cases skipped\n", repo)
 		return ""
 	}
 	svcHook = true
-	if _, err := os.Stat(filepath.Join(repo, "timeservice_wiring_verif.go")); err == nil {
+	if svclib.HasHook(repo, "timeservice_wiring_verif.go") {
 		svcWiringHook = true
 	} else {
 		fmt.Fprintf(os.Stderr, "c01: %s/timeservice_wiring_verif.go not present: sync.clocks cases skipped\n", repo)
 	}
-	dir, err := os.MkdirTemp("", "c01cfg")
+	bin, err := svclib.Build(repo)
 	if err != nil {
-		panic(err)
-	}
-	svcDir = dir
-	bin := filepath.Join(dir, "timeservice-verif")
-	cmd := exec.Command("go", "build", "-tags", "verif", "-o", bin, ".")
-	cmd.Dir = repo
-	out, err := cmd.CombinedOutput()
-	if err != nil {
-		svcBuildLog = fmt.Sprintf("%v\n%s", err, out)
-		fmt.Fprintf(os.Stderr, "c01: building the time service with -tags verif failed: %s\n", svcBuildLog)
+		svcBuildLog = err.Error()
+		fmt.Fprintf(os.Stderr, "c01: %s\n", svcBuildLog)
 		return ""
 	}
+	svcDir = filepath.Dir(bin)
 	svcBin = bin
 	return bin
 }
